@@ -126,6 +126,7 @@ def planUn (w : World) (hc : HCfg) (n : Nat) : Ty → HVal → Option Cell → P
         | .ref l => let (ps, doomed) := tdUnPatches w hc n c kvs (w.fields c)
                     .copyPatch false doomed false l kvs ps
         | _ => .fail
+  | .union _ _, v, view => planUnAny w hc.cfg v view     -- `_unstructure_union`: dispatch on the run-time class
   | _, v, _ => .ident v
 
 end CattrsModel.Heap
